@@ -17,7 +17,7 @@ func init() { register("C14", C14) }
 func c14Corpus(c *Ctx) []*corpus.Spec {
 	want := []string{"list_null", "auto_tokens", "rr_first", "case_names"}
 	if c.Thorough() {
-		want = append(want, "shared_lookback", "lvalue", "opt_mid", "dangling_else", "unit_chain", "etf", "expr_nonassoc", "sep_ab")
+		want = append(want, "scc_cycle", "shared_lookback", "lvalue", "opt_mid", "dangling_else", "unit_chain", "etf", "expr_nonassoc", "sep_ab")
 	}
 	var out []*corpus.Spec
 	for _, s := range corpus.Fixed() {
